@@ -820,9 +820,19 @@ func opHandlerBind(env *LEnv, args *LVal) *LVal {
 				// even if a Go panic propagates through the handler.
 				env.Runtime.PushCondition(val)
 				defer env.Runtime.PopCondition()
-				expr := []*LVal{hval, Quote(Symbol(val.Str))}
-				expr = append(expr, val.Copy().Cells...)
-				return env.Eval(SExpr(expr))
+				// Call the handler on the condition name and the error's data
+				// as VALUES.  Evaluating the form (handler 'name data...)
+				// evaluated each datum a second time, so an error whose data
+				// held a symbol or a list handed the handler that symbol's
+				// binding or that list's call result (or failed outright).
+				// The handler call is still charged one step, so an exhausted
+				// budget or a cancelled context stops it like any other call.
+				if lerr := env.checkLimits(env.evalCtx); lerr != nil {
+					return lerr
+				}
+				hargs := []*LVal{Quote(Symbol(val.Str))}
+				hargs = append(hargs, val.Copy().Cells...)
+				return env.FunCall(hval, SExpr(hargs))
 			}
 			return val
 		}
